@@ -18,7 +18,7 @@ func pow2(n uint) *big.Int { return new(big.Int).Lsh(big.NewInt(1), n) }
 func sub1(x *big.Int) *big.Int { return new(big.Int).Sub(x, big.NewInt(1)) }
 
 func genAmount(r *hlib.Rand) *big.Int {
-	switch r.Intn(16) {
+	switch r.Intn(24) {
 	case 0:
 		return big.NewInt(0)
 	case 1:
@@ -60,7 +60,7 @@ func genU64(r *hlib.Rand) *big.Int {
 }
 
 func genOpt(r *hlib.Rand) *big.Int {
-	switch r.Intn(12) {
+	switch r.Intn(28) {
 	case 0:
 		return big.NewInt(0)
 	case 1:
@@ -89,7 +89,7 @@ func genWeights(r *hlib.Rand) [][2]*big.Int {
 		}
 		return out
 	}
-	switch r.Intn(16) {
+	switch r.Intn(32) {
 	case 0:
 		return nil
 	case 1:
@@ -126,7 +126,7 @@ func randAddr(r *hlib.Rand) common.Address { return common.BytesToAddress(r.Byte
 
 // genValString: validator strings for the pure hook (any bytes are possible in an event).
 func genValString(r *hlib.Rand, valid []string) string {
-	switch r.Intn(14) {
+	switch r.Intn(24) {
 	case 0:
 		return ""
 	case 1:
@@ -357,6 +357,18 @@ func (g *genState) appValString(r *hlib.Rand) string {
 	}
 }
 
+func (g *genState) appCredit(callerKey, v string, a *big.Int) {
+	for i, s := range g.valStr {
+		if s == v && a.BitLen() < 100 {
+			key := fmt.Sprintf("%s/%d", callerKey, i)
+			if g.deleg[key] == nil {
+				g.deleg[key] = new(big.Int)
+			}
+			g.deleg[key].Add(g.deleg[key], a)
+		}
+	}
+}
+
 func (g *genState) appAmount(r *hlib.Rand, callerKey string, v string, action string) *big.Int {
 	vi := -1
 	for i, s := range g.valStr {
@@ -407,9 +419,27 @@ func (g *genState) appAmount(r *hlib.Rand, callerKey string, v string, action st
 	}
 }
 
+// heldVal returns a validator string the caller (probably) has a delegation with, or "".
+func (g *genState) heldVal(r *hlib.Rand, callerKey string) string {
+	var c []string
+	for i, v := range g.valStr {
+		if h := g.deleg[fmt.Sprintf("%s/%d", callerKey, i)]; h != nil && h.Sign() > 0 {
+			c = append(c, v)
+		}
+	}
+	if len(c) == 0 || r.Chance(1, 5) {
+		return ""
+	}
+	return c[r.Intn(len(c))]
+}
+
 func (g *genState) genSys(r *hlib.Rand, callerKey string) *Node {
 	n := &Node{K: "sys"}
-	switch x := r.Intn(20); {
+	x := r.Intn(20)
+	if len(g.deleg) < 2 && r.Chance(2, 3) {
+		x = 0
+	}
+	switch {
 	case x < 6:
 		n.C, n.Fn = "staking", "delegate"
 	case x < 9:
@@ -423,17 +453,40 @@ func (g *genState) genSys(r *hlib.Rand, callerKey string) *Node {
 	default:
 		n.C, n.Fn = "gov", "votew"
 	}
+	if (n.Fn == "undelegate" || n.Fn == "redelegate" || n.Fn == "withdraw") && g.heldVal(r, callerKey) == "" && r.Chance(3, 4) {
+		n.Fn = "delegate" // nothing to undelegate yet: build up a delegation first (mostly)
+	}
 	switch n.Fn {
 	case "delegate", "undelegate":
 		v := g.appValString(r)
+		if h := g.heldVal(r, callerKey); n.Fn == "undelegate" && h != "" {
+			v = h
+		}
 		n.V = hlib.Hex([]byte(v))
 		n.A = g.appAmount(r, callerKey, v, n.Fn).String()
 	case "redelegate":
 		v, w := g.appValString(r), g.appValString(r)
+		if h := g.heldVal(r, callerKey); h != "" {
+			v = h
+			if w == v && r.Chance(4, 5) {
+				for _, x := range g.valStr {
+					if x != v {
+						w = x
+					}
+				}
+			}
+		}
 		n.V, n.W = hlib.Hex([]byte(v)), hlib.Hex([]byte(w))
 		n.A = g.appAmount(r, callerKey, v, n.Fn).String()
+		if r.Chance(1, 2) { // the model of redelegation tracks the destination too
+			g.appCredit(callerKey, w, bigOf(n.A))
+		}
 	case "withdraw":
-		n.V = hlib.Hex([]byte(g.appValString(r)))
+		v := g.appValString(r)
+		if h := g.heldVal(r, callerKey); h != "" {
+			v = h
+		}
+		n.V = hlib.Hex([]byte(v))
 	case "vote":
 		n.Pid = []string{"1", "1", "1", "3", "2", "99", "0"}[r.Intn(7)]
 		if r.Chance(1, 12) {
@@ -524,7 +577,13 @@ func genSpec(r *hlib.Rand, id int, maxSteps int, valStr []string, eoas []common.
 			st.T = "block"
 		default:
 			st.From = r.Intn(len(eoas))
+			if r.Chance(1, 2) {
+				st.From = 0 // a main caller, so that later actions find its earlier delegations
+			}
 			p := r.Intn(nProxies)
+			if r.Chance(1, 2) {
+				p = 0
+			}
 			q := (p + 1 + r.Intn(nProxies-1)) % nProxies
 			pk, qk, ek := fmt.Sprintf("p%d", p), fmt.Sprintf("p%d", q), fmt.Sprintf("e%d", st.From)
 			st.T = "tx"
